@@ -101,6 +101,11 @@ impl Scenario for C17 {
         ));
         let probe = env.register(Probe, ());
         let probe2 = env.register(Probe, ());
+        // the target names Z as its owner / operator / admin / collector: that makes Z nothing here
+        for t in [&probe, &probe2] {
+            let c = w.call(t, "set_boss", &[p[2].to_val()], Auth::Nobody);
+            assert!(c.ok, "probe set-up failed: {}", c.err);
+        }
         (Ctx { w, ops, probe, probe2, p }, Model { advances: 0, members: [false; 4], owner: 3, count: 0 })
     }
 
@@ -278,6 +283,18 @@ impl Scenario for C17 {
         out.expect(q == Some(w.sc_addr_val(&ctx.p[m.owner])), "probe.owner", || format!("{:?} vs {}", q, m.owner));
         let q = w.query(&ctx.probe, "count", &[]);
         out.expect(q == Some(su32(m.count)), "probe.count", || format!("{:?} vs {}", q, m.count));
+        // entry points the check does not drive by name change nothing when nobody authorises them
+        let targets: [(&Address, &str, &[&str]); 1] = [(&ctx.ops, "/repo/contracts/axelar-operators/src", &axmc::inventory::OPERATORS_KNOWN)];
+        let addresses = [ctx.p[0].clone(), ctx.p[5].clone(), ctx.probe.clone()];
+        for (contract, func, args) in axmc::inventory::unknown_calls(w, "C17", &targets, &addresses, 32) {
+            let snap = w.snap();
+            let h0 = w.state_hash();
+            let call = w.call(&contract, &func, &args, Auth::Nobody);
+            out.expect(!call.ok || h0 == w.state_hash(), "unknown-entry-point.changed-state-unauthorised", || {
+                format!("`{}` (not among the known entry points), called with nobody's authorisation, changed the operators contract's state (members {:?})", func, m.members)
+            });
+            w.restore(&snap);
+        }
     }
 
     fn must_succeed_kinds(&self) -> Vec<&'static str> {
@@ -290,7 +307,7 @@ fn main() {
         let mut o = Opts::new(tier, if tier == "thorough" { 14 } else { 10 });
         o.min_depth = 4;
         o.xcheck = tier == "thorough";
-        o.rule = "all sequences over add/remove operator X, Y, Z and an account-type address by {owner O, other owner N, stranger}, ownership transfers O<->N (and by non-owners, to self, to the all-zero account = renouncing, to the operators contract itself, and take-over attempts afterwards), execute by caller X/Y/Z authorised by {itself, a stranger, nobody, the owner, itself but for another forwarded function with the same arguments, itself but for another target contract, itself but for other forwarded arguments} forwarding to a probe contract: echo of 12 values of different types (incl. false, true, 0, the empty string, void), add(2,3), record(7,tag) (writes + emits, bounded to 2), a target returning an error, a panicking target, a missing function, wrong arity; explored to fixpoint; is_operator for all six accounts, owner() and the probe's delivery count compared after every new state".into();
+        o.rule = "all sequences over add/remove operator X, Y, Z and an account-type address by {owner O, other owner N, stranger}, ownership transfers O<->N (and by non-owners, to self, to the all-zero account = renouncing, to the operators contract itself, and take-over attempts afterwards), execute by caller X/Y/Z authorised by {itself, a stranger, nobody, the owner, itself but for another forwarded function with the same arguments, itself but for another target contract, itself but for other forwarded arguments} forwarding to a probe contract: echo of 12 values of different types (incl. false, true, 0, the empty string, void), add(2,3), record(7,tag) (writes + emits, bounded to 2), a target returning an error, a panicking target, a missing function, wrong arity; explored to fixpoint; is_operator for all six accounts, owner() and the probe's delivery count compared after every new state; the probe target reports Z as its own owner / operator / admin / collector, which must give Z nothing; every exported function of the operators contract that the check does not drive by name is called with nobody's authorisation and must change nothing".into();
         (C17, o)
     });
 }
